@@ -12,6 +12,7 @@ write i, after flush i, after the acknowledgement), acknowledging on a pipe.
 """
 
 import os
+import re
 import json
 import signal
 import tempfile
@@ -27,7 +28,7 @@ ID = "C11"
 LEVEL = "fault_enumeration"
 RULE = (
     "programs = forests <= 3 nodes x <= 1 deviation over {message api, 10 kB field, action style, "
-    "failing exit}; mode A crash points = every prefix of the device event log (writes, flushes, "
+    "failing exit} + a wide action handing work over at position 11; mode A crash points = every prefix of the device event log (writes, flushes, "
     "acknowledgements; for every third program also with a destination that logs re-entrantly and acknowledges as soon as its nested logging call has returned) x every prefix length of the unflushed bytes (all lengths for lines < 600 bytes, "
     "boundaries and every 512th byte otherwise); mode B = real SIGKILL of a forked child at every "
     "before-write / after-write / after-flush / after-ack boundary on real disk files of 7 kinds (binary buffered/unbuffered/256 kB buffer, text buffered / write-through / line-buffered / 256 kB buffer), incl. lines larger than the default buffer; "
@@ -39,7 +40,7 @@ ASSUMPTIONS = [
     "deterministic clock/uuid seams make the crash-free run the reference for byte-exact comparison",
 ]
 
-BIG = "y" * 10000
+BIG = "y" * 9990 + "\u00e9\u00fc\u00b0 \U0001f600 \u4e2d"  # ~10 kB, with characters from several Unicode ranges
 SCHEMA = {"m": [("api", 3), ("fs", 2)], "a": [("style", 3), ("exit", 2), ("sf", 2), ("at", 2)]}
 # at: 1 -> the empty action type (start_action() without a type)
 
@@ -56,6 +57,10 @@ def _programs(tier):
             if x[0] == "a" and x[1].get("at"):
                 x[1]["at"] = 2
         out.append(p)
+    # a wide action (positions beyond 9) that hands work to "another process" (serialize_task_id /
+    # continue_task) at a multi-digit position, immediately and deferred
+    for style in (6, 7):
+        out.append([["a", {}, [["m", {}] for _ in range(9)] + [["a", {"style": style}, [["m", {}]]], ["m", {}]]]])
     return out
 
 
@@ -259,12 +264,31 @@ def run_program(prog, file_factory, on_ack, on_nested_ack=None):
     return world.run_isolated(go)
 
 
+_UUID = re.compile(rb"[0-9a-f]{8}-[0-9a-f]{4}-[0-9a-f]{4}-[0-9a-f]{4}-[0-9a-f]{12}")
+_UUID_KEY = b'"task_uuid":"'
+
+
+def canon_ids(chunks):
+    """Rename task ids by first occurrence: the crash-free reference and the crashed run are two runs,
+    and which unique ids a run draws is not part of the property."""
+    seen = {}
+    return [_UUID.sub(lambda m: b"<id-%d>" % seen.setdefault(m.group(0), len(seen)), c) for c in chunks]
+
+
 def check_image(image, ref_lines, acked, ctx, required_ids=()):
     """image: surviving bytes; ref_lines: crash-free lines (bytes, with newline)."""
     viol = []
     parts = image.split(b"\n")
     frag = parts[-1]
     lines = [p + b"\n" for p in parts[:-1]]
+    # a fragment torn inside a task id is compared up to the id
+    k = frag.rfind(_UUID_KEY)
+    if k >= 0 and b'"' not in frag[k + len(_UUID_KEY):]:
+        frag = frag[: k + len(_UUID_KEY)]
+    real_lines = lines
+    canon = canon_ids(lines + [frag])
+    lines, frag = canon[:-1], canon[-1]
+    ref_lines = canon_ids(ref_lines)
     if lines != ref_lines[: len(lines)]:
         viol.append(("complete-lines-not-a-prefix-of-the-emission-sequence", dict(ctx, n=len(lines))))
         return viol
@@ -282,8 +306,11 @@ def check_image(image, ref_lines, acked, ctx, required_ids=()):
         nxt = ref_lines[len(lines)] if len(lines) < len(ref_lines) else b""
         if not nxt.startswith(frag):
             viol.append(("trailing-fragment-is-not-a-prefix-of-the-next-line", dict(ctx)))
+    canon_lines = lines
+    lines = real_lines
     try:
         dicts = [json.loads(l) for l in lines]
+        cmap = {d["task_uuid"]: json.loads(c)["task_uuid"] for d, c in zip(dicts, canon_lines)}
         tasks = list(Parser.parse_stream(dicts))
     except Exception as e:
         viol.append(("parsing-truncated-log-failed", dict(ctx, error=repr(e)[:200])))
@@ -295,12 +322,12 @@ def check_image(image, ref_lines, acked, ctx, required_ids=()):
         total[u] = total.get(u, 0) + 1
     have = {}
     for d in dicts:
-        have[d["task_uuid"]] = have.get(d["task_uuid"], 0) + 1
-    if sorted(t.root().task_uuid for t in tasks) != sorted(have):
+        have[cmap[d["task_uuid"]]] = have.get(cmap[d["task_uuid"]], 0) + 1
+    if sorted(cmap.get(t.root().task_uuid, "?") for t in tasks) != sorted(have):
         viol.append(("tasks-missing-or-duplicated", dict(ctx)))
     for t in tasks:
-        u = t.root().task_uuid
-        if t.is_complete() != (have[u] == total[u]):
+        u = cmap.get(t.root().task_uuid, "?")
+        if u in have and t.is_complete() != (have[u] == total.get(u)):
             viol.append(("completeness-misreported", dict(ctx, says=t.is_complete(), have=have[u], total=total[u])))
     # every started action appears, unfinished ones as started
     started = set()
@@ -493,7 +520,7 @@ def run_real(prog, kind="binary-buffered"):
                 nontrivial += 1
             for sig, d in check_image(image, ref_lines, acked, {"kill_point": list(pt), "mode": "real-SIGKILL", "file": kind}):
                 viol.append((sig, d))
-            if pt[0] == "never" and image != buf:
+            if pt[0] == "never" and canon_ids([image]) != canon_ids([buf]):
                 viol.append(("crash-free-disk-file-differs", {}))
             if len(viol) > 3:
                 break
